@@ -486,3 +486,60 @@ def model_tokens(sem):
                     for a in row:
                         t += _anchor(a)
     return " ".join(str(x) for x in t)
+
+
+# ------------------------------------------------------------------------------------------------
+# `gp pos` correspondence: the attachment lookups of the whole table on an injected buffer
+
+SUBSTITUTED, LIGATED, MULTIPLIED = 0x10, 0x20, 0x40
+UP_IGNORABLE, UP_HIDDEN, UP_CONT, UP_ZWJ, UP_ZWNJ = 0x20, 0x40, 0x80, 0x100, 0x200
+
+
+def rand_infos(r, sem, all_mask):
+    """(gid, mask, glyph_props, lig_props, unicode_props) per glyph: what GSUB may leave behind — GDEF props or
+    arbitrary ones, ligatures with marks carrying component numbers, MultipleSubst sequences, default ignorables
+    (plain, hidden, ZWJ, ZWNJ, substituted), glyphs outside the lookup's feature range"""
+    covered = sorted({g for lk in sem["lookups"] for s in lk["subs"] for g in s.get("marks", s.get("ee", {}))})
+    out = []
+    n = r.range(1, 12) if r.chance(7, 8) else r.range(20, 40)
+    lig_id = 0
+    while len(out) < n:
+        k = r.below(12)
+        g = r.choice(covered) if covered and r.chance(1, 2) else r.choice(ALL)
+        gp = props_of(sem, g) if r.chance(3, 4) else r.choice([0, BASE_GLYPH, LIGATURE, MARK, MARK | 0x100, MARK | 0x200])
+        up = r.choice([7, 7, 7, 12, 10])
+        mask = all_mask if r.chance(9, 10) else r.choice([0, all_mask & 0x80000000, all_mask & 0x7FFFFFFF])
+        if k == 0:            # a ligature followed by marks that know their component
+            lig_id = lig_id % 7 + 1
+            nc = r.range(1, 4)
+            out.append((g, mask, (gp & ~MARK if r.chance(3, 4) else gp) | LIGATED | SUBSTITUTED, (lig_id << 5) | 0x10 | nc, up))
+            for _ in range(r.range(0, 3)):
+                m = r.choice(covered) if covered and r.chance(2, 3) else r.choice(ALL)
+                mp = props_of(sem, m) if r.chance(1, 2) else MARK | r.choice([0, 0x100, 0x200])
+                lid = lig_id if r.chance(3, 4) else r.choice([0, lig_id % 7 + 1])
+                out.append((m, mask, mp, (lid << 5) | r.range(0, 5), up))
+        elif k == 1:          # a MultipleSubst sequence (components 0,1,2,… of one source glyph), maybe interrupted
+            lid = r.choice([0, 0, 0, lig_id % 7 + 1])
+            for c in range(r.range(2, 4)):
+                gg = r.choice(covered) if covered and r.chance(1, 2) else r.choice(ALL)
+                pp = (props_of(sem, gg) if r.chance(2, 3) else r.choice([0, BASE_GLYPH, MARK])) | SUBSTITUTED
+                if not r.chance(1, 6): pp |= MULTIPLIED
+                out.append((gg, mask, pp, (lid << 5) | (c if r.chance(5, 6) else r.range(0, 4)), up))
+        elif k == 2:          # a default ignorable of some kind
+            kind = r.below(6)
+            u = UP_IGNORABLE | (1 if kind < 4 else 12)
+            if kind == 1: u |= UP_ZWJ
+            if kind == 2: u |= UP_ZWNJ
+            if kind == 3: u |= UP_HIDDEN
+            if kind == 5: u |= UP_HIDDEN | UP_CONT
+            out.append((g, mask, gp | (SUBSTITUTED if r.chance(1, 6) else 0), 0, u))
+        else:
+            out.append((g, mask, gp, 0 if r.chance(5, 6) else r.below(256), up))
+    return out[:max(n, 1)]
+
+
+def pos_request(fid, d, finish, infos, sem, maps, ps):
+    it = ",".join(":".join(str(v) for v in x) for x in infos)
+    mt = [len(maps)] + [v for m in maps for v in m]
+    pt = " ".join(":".join(str(v) for v in p) for p in ps)
+    return f"gp pos {fid} {d} {finish} {it} FONT {model_tokens(sem)} MAPS {' '.join(str(x) for x in mt)} | {pt}"
